@@ -35,6 +35,7 @@ EDGES = [
     "NestingEdge",  # its __init__ calls randgraph itself (re-entrant use of the builder)
     "SpanEdge",  # instances are falsy until both ends are attached
     "ArcEdge",  # __repr__ reads both ends (raises on a half-built edge)
+    "IndexedEdge",  # its __init__ reads the `i` of both ends
 ]
 
 
@@ -106,12 +107,17 @@ def call(op):
         kw["connectivity"] = op["conn"]
     if "ensure" in op:
         kw["ensurelink"] = op["ensure"]
-    with seams.WarningsAsErrors(bool(op.get("w_error"))), DebugLogging(bool(op.get("debug_log"))):
-        mode = op.get("bias")
-        if mode:
-            with Biased(mode):
-                return RG.randgraph(**kw)
-        return RG.randgraph(**kw)
+    # process-wide setting seam: the application has neighbor caching on
+    seams.set_flag(bool(op.get("cache")))
+    try:
+        with seams.WarningsAsErrors(bool(op.get("w_error"))), DebugLogging(bool(op.get("debug_log"))):
+            mode = op.get("bias")
+            if mode:
+                with Biased(mode):
+                    return RG.randgraph(**kw)
+            return RG.randgraph(**kw)
+    finally:
+        seams.set_flag(False)
 
 
 class DebugLogging:
@@ -174,6 +180,9 @@ class C20(engine.Property):
         "generator states are sampled, not enumerated",
     ]
     expected_probes = [
+        "neighbor-caching-on-during-the-call",
+        "caching-on-with-an-edge-type-neighbors()-does-not-know",
+        "edge-class-that-reads-its-ends'-i-when-made",
         "debug-logging-on-during-the-call",
         "warnings-as-errors-during-the-call",
         "edge-class-that-calls-randgraph-itself",
@@ -199,6 +208,7 @@ class C20(engine.Property):
             "max_count": rng.choice([6, 15, 40]),
             "p_debug_log": rng.choice([0.0, 0.0, 0.3]),
             "p_w_error": rng.choice([0.0, 0.0, 0.3]),
+            "p_cache": rng.choice([0.0, 0.0, 0.3, 1.0]),
         }
 
     def start(self, cfg):
@@ -232,6 +242,9 @@ class C20(engine.Property):
         if rng.random() < cfg.get("p_w_error", 0.0):
             # the application runs with warnings turned into errors
             op["w_error"] = True
+        if rng.random() < cfg.get("p_cache", 0.0):
+            # the application has neighbor caching switched on
+            op["cache"] = True
         if rng.random() < cfg.get("p_debug_log", 0.0):
             # the application has turned debug logging on for the library
             op["debug_log"] = True
@@ -248,6 +261,13 @@ class C20(engine.Property):
         if op.get("w_error"):
             s["probe:warnings-as-errors-during-the-call"] += 1
             s["fault:process-wide-setting-changed"] += 1
+        if op.get("cache"):
+            s["probe:neighbor-caching-on-during-the-call"] += 1
+            s["fault:process-wide-setting-changed"] += 1
+            if op.get("edge") == "OtherTwoEnded":
+                s["probe:caching-on-with-an-edge-type-neighbors()-does-not-know"] += 1
+        if op.get("edge") == "IndexedEdge":
+            s["probe:edge-class-that-reads-its-ends'-i-when-made"] += 1
         if op.get("debug_log"):
             s["probe:debug-logging-on-during-the-call"] += 1
             s["fault:process-wide-setting-changed"] += 1
